@@ -421,6 +421,19 @@ HttpResponse Http::request(HttpRequest& request)
 	response.setCode(parts[1]);
 	response.readHeaders();
 
+	while (response.code() >= 100 && response.code() < 200 && response.code() != 101) // interim response (e.g. "100 Continue"): the final one follows
+	{
+		parts = socket.readLine().split();
+		if (parts.length() < 2) {
+			socket.close();
+			response.setSockError(socket.errorMsg());
+			return response;
+		}
+		response.setProto(parts[0]);
+		response.setCode(parts[1]);
+		response.readHeaders();
+	}
+
 	int code = response.code();
 
 	if (request.followRedirects() && (code == 301 || code == 302 || code == 307 || code == 308)) // 303 ?
